@@ -82,7 +82,7 @@ def rnd_step(rng):
         n = rng.choice([[0, 0, 1], [0, 0, -1], [1, 0, 0], [0, 1, 0], [1, 0, 1]])
         return {"op": "facing", "normal": [float(x) for x in n], "angle": rng.choice([0.3, math.pi / 4, math.pi / 2, 2.0]), "mode": mode}
     return {"op": "near", "all": rng.random() < 0.5, "dist": rng.choice([0.02, 0.1, 0.6, 5.0]),
-            "planar": rng.choice([None, None, 0.01, 0.2]), "angle": rng.choice([None, 0.1, 0.6, 1.6]), "mode": mode}
+            "planar": rng.choice([None, None, 0.01, 0.2, 0.0]), "angle": rng.choice([None, 0.1, 0.6, 1.6, 0.0]), "mode": mode}      # a tolerance of zero is a tolerance, not "none"
 
 
 def gen_select(rng):
